@@ -44,7 +44,7 @@ POINTS = {
 }
 REQUIRED_CLAUSES = ["ellipse.identity", "rp==a*rho_cosphi", "rm.equator-pole",
                     "rm.monotone", "linear_velocity==omega*rp",
-                    "height-increment", "distance.symmetric",
+                    "height-increment", "set()-history-independent", "distance.symmetric",
                     "distance.coincident==0", "distance.equator",
                     "distance.meridian", "distance.within-0.6%-of-sphere",
                     "parallax.bounded", "parallax.tends-to-zero",
@@ -113,6 +113,29 @@ def case_identities(mon, a, f, om, lat, h):
     except Exception as ex:
         mon.dev("ellipse.identity", dict(case, raised=repr(ex)))
         return
+    # the same ellipsoid reached through set() on objects with a history
+    # (built on another ellipsoid first) must give the same numbers
+    from pymeeus.Earth import IAU76, WGS84
+    hist = {}
+    for label, start in (("Earth(WGS84).set(el)", WGS84),
+                         ("Earth(IAU76).set(el)", IAU76),
+                         ("Earth(f=0.01).set(el)",
+                          Ellipsoid(6378137.0, 0.01, 7.0e-5))):
+        try:
+            e2 = Earth(start)
+            e2.rho_cosphi(12.0, 100.0)          # use it before re-setting
+            e2.set(el)
+            got = (e2.rho_cosphi(lat, 0.0), e2.rho_sinphi(lat, 0.0),
+                   e2.rho_cosphi(lat, h), e2.rho_sinphi(lat, h), e2.rp(lat),
+                   e2.rm(lat), e2.linear_velocity(lat))
+        except Exception as ex:
+            got = repr(ex)
+        if got != (c0, s0, ch, sh, rp, rm, lv):
+            hist[label] = got
+    mon.cls("ellipsoid-changed-with-set()", ident)
+    mon.check("set()-history-independent", not hist,
+              lambda: dict(case, fresh_object=[c0, s0, ch, sh, rp, rm, lv],
+                           after_set=hist))
     mon.check("ellipsoid.b,e", abs(bb - b) <= 1e-15 * a
               and abs(ee * ee - (2 * f - f * f)) <= 1e-15,
               dict(case, b=bb, e=ee))
